@@ -349,11 +349,20 @@ end Index
 section XRay
 variable {α : Type}
 
-/-- `inds = jnp.where(inds >= 0, inds, ny)`: negative bins would wrap, so they are sent off the detector -/
+/-- `jnp.where(i >= 0, i, ny)`: a negative bin index would wrap around, so it is sent off the detector -/
 def fixNeg (ny : Nat) (i : Int) : Int := if 0 ≤ i then i else ny
 
-/-- two scatter-adds (out-of-range updates are dropped) of `w·x` at bin `I` and `(1−w)·x` at `I+1` -/
+/-- `XRayTransform2D._project` (since e359064): two scatter-adds (out-of-range updates are dropped) of `w·x` at bin
+    `first = fixNeg(I)` and of `(1−w)·x` at bin `second = fixNeg(I + 1)` — each bin treated on its own -/
 def xrayProject [Add α] [Mul α] [Sub α] [Zero α] [One α] (np : Nat) (I : Nat → Int) (w x : V α) (ny : Nat) : V α :=
+  fun b => if b < ny then
+    sumTo np (fun p => (if fixNeg ny (I p) = b then w p * x p else 0)
+                      + (if fixNeg ny (I p + 1) = b then (1 - w p) * x p else 0))
+  else 0
+
+/-- the scatter of the tree before e359064: the negative first bin was replaced BEFORE `+ 1`, so a pixel whose
+    first bin is `−1` lost its share of bin `0` as well (fixed finding `xray-left-edge-drop`) -/
+def xrayProjectCoupled [Add α] [Mul α] [Sub α] [Zero α] [One α] (np : Nat) (I : Nat → Int) (w x : V α) (ny : Nat) : V α :=
   fun b => if b < ny then
     sumTo np (fun p => (if fixNeg ny (I p) = b then w p * x p else 0)
                       + (if fixNeg ny (I p) + 1 = b then (1 - w p) * x p else 0))
